@@ -251,6 +251,28 @@ func structural(wire []byte, otherSession []byte, plaintext []byte) []mutant {
 			}
 		}
 	}
+	// pairs (bound 2): a weakened MAC tag together with an altered inner message. A receiver whose MAC comparison
+	// degenerates for some tag shape (empty, shortened, zeroed) accepts the genuine payload under it unchanged, which
+	// is no different content yet; only together with a change of ciphertext or IV does it accept other content.
+	if top.U == 17 && arr.Items[2].Kind == rc.Bytes && len(arr.Items[3].B) > 0 {
+		tagv := arr.Items[3].B
+		tags := map[string][]byte{"empty": nil, "first1": tagv[:1], "half": tagv[:len(tagv)/2], "minus1": tagv[:len(tagv)-1], "zero": make([]byte, len(tagv)), "plus1": append(bytes.Clone(tagv), 0)}
+		payload := arr.Items[2].B
+		var alts [][2]any
+		for _, bit := range []int{0, 7, len(payload)*8 - 1, len(payload)*8 - 9, len(payload) * 4} {
+			if bit >= 0 && bit < len(payload)*8 {
+				alts = append(alts, [2]any{fmt.Sprintf("payloadbit%d", bit), flip(payload, bit)})
+			}
+		}
+		for tn, tv := range tags {
+			for _, al := range alts {
+				a := arr.Clone()
+				a.Items[2] = rc.Bs(al[1].([]byte))
+				a.Items[3] = rc.Bs(tv)
+				add("pair:mac0-tag-"+tn+"+"+al[0].(string), rc.Tg(17, a))
+			}
+		}
+	}
 	// ciphertext manipulations
 	ct := func(op string, v *rc.Item) {
 		c := e.Clone()
@@ -552,7 +574,7 @@ func main() {
 	if !r.Quick() {
 		sizes = append(sizes, 200)
 	}
-	r.Rule("Layer A: 6 key exchanges x 7 cipher suites (sessions from the real Parameter/SetParameter), both directions, payload lengths {0,1,15,16,17(,200)}: EVERY bit of the protected wire object plus ~60 structural operators plus ~180 header-injection operators (every label 1..7 x IV/algorithm-derived values written into the unauthenticated header maps of the COSE_Mac0 and COSE_Encrypt0 layers) (strip/forge COSE_Mac0, re-tag, untag, drop/resize/retype IV, drop/move/replace alg header, null/empty/truncated/extended/short ciphertext, cross-session ciphertext, plaintext substitution) delivered to the real peer Decrypt: it must fail or return exactly the sender's plaintext; IVs pairwise distinct; plaintext not on the wire. Layer B: in a real TO2 over the HTTP transport, every protected message position in both directions x {strip-mac0, retag, plaintext, cross-session, empty, truncate, one byte flip per (sampled in quick: ~24 per message; all in thorough) byte}: the run must fail with no credential and no voucher replacement. distinct = distinct (suite,length,outcome,operator) classes.")
+	r.Rule("Layer A: 6 key exchanges x 7 cipher suites (sessions from the real Parameter/SetParameter), both directions, payload lengths {0,1,15,16,17(,200)}: EVERY bit of the protected wire object plus ~60 structural operators plus ~180 header-injection operators (every label 1..7 x IV/algorithm-derived values written into the unauthenticated header maps of the COSE_Mac0 and COSE_Encrypt0 layers) plus 30 pairs of a weakened COSE_Mac0 tag (empty, first byte, half, minus one, zeroed, plus one) with a flipped bit of the MACed payload (strip/forge COSE_Mac0, re-tag, untag, drop/resize/retype IV, drop/move/replace alg header, null/empty/truncated/extended/short ciphertext, cross-session ciphertext, plaintext substitution) delivered to the real peer Decrypt: it must fail or return exactly the sender's plaintext; IVs pairwise distinct; plaintext not on the wire. Layer B: in a real TO2 over the HTTP transport, every protected message position in both directions x {strip-mac0, retag, plaintext, cross-session, empty, truncate, one byte flip per (sampled in quick: ~24 per message; all in thorough) byte}: the run must fail with no credential and no voucher replacement. distinct = distinct (suite,length,outcome,operator) classes.")
 	var wg sync.WaitGroup
 	sem := make(chan struct{}, 16)
 	for _, s := range suites {
